@@ -10,7 +10,7 @@ from harness.props import c01
 
 OBLIGATIONS = [
     "PgmVerif.C03_argmax_is_max", "PgmVerif.C03_argmax_decode", "PgmVerif.C03_map_is_maximiser",
-    "PgmVerif.C03_max_elimination_any_order",
+    "PgmVerif.C03_max_elimination_any_order", "PgmVerif.C03_argmax_scale_invariant",
 ]
 PARTIAL = ["numpy argmax tie-breaking is free by design: the check is by value of the exact posterior at the returned assignment",
            "row-wise predict is compared differentially (pandas merge logic is not modelled)"]
